@@ -7,6 +7,7 @@ import (
 	"errors"
 	"fmt"
 	"reflect"
+	"sort"
 	"strconv"
 	"strings"
 	"time"
@@ -162,10 +163,19 @@ func optFieldType(o *OptNode) reflect.Type {
 		}
 		return reflect.FuncOf(nil, nil, false)
 	case "func1":
-		if o.ErrFunc || o.FailOn != nil {
-			return reflect.FuncOf([]reflect.Type{et}, []reflect.Type{errType}, false)
+		pt := et
+		switch o.Param {
+		case "slice":
+			pt = reflect.SliceOf(et)
+		case "map":
+			pt = reflect.MapOf(typeByName["string"], et)
+		case "ptr":
+			pt = reflect.PtrTo(et)
 		}
-		return reflect.FuncOf([]reflect.Type{et}, nil, false)
+		if o.ErrFunc || o.FailOn != nil {
+			return reflect.FuncOf([]reflect.Type{pt}, []reflect.Type{errType}, false)
+		}
+		return reflect.FuncOf([]reflect.Type{pt}, nil, false)
 	}
 	panic("unknown kind " + o.Kind)
 }
@@ -443,18 +453,58 @@ func (b *Built) preset(o *OptNode, f reflect.Value) {
 	case "func0", "func1":
 		idx := o.idx
 		failOn := o.FailOn
+		param := o.Param
 		ft := f.Type()
+		var seenPtr []uintptr
 		fn := reflect.MakeFunc(ft, func(in []reflect.Value) []reflect.Value {
 			ev := event{"k": "call", "o": idx, "has": len(in) == 1, "arg": S{}}
 			fail := false
 			if len(in) == 1 {
-				ev["arg"] = toS(atomText(in[0]))
+				// a composite parameter is rendered whole: every call gets a value of its own holding exactly this occurrence
+				switch param {
+				case "slice":
+					t := "["
+					for i := 0; i < in[0].Len(); i++ {
+						if i > 0 {
+							t += "\x1f"
+						}
+						t += atomText(in[0].Index(i))
+					}
+					ev["arg"] = toS(t + "]")
+				case "map":
+					keys := in[0].MapKeys()
+					sort.Slice(keys, func(i, j int) bool { return keys[i].String() < keys[j].String() })
+					t := "{"
+					for i, k := range keys {
+						if i > 0 {
+							t += "\x1f"
+						}
+						t += k.String() + ":" + atomText(in[0].MapIndex(k))
+					}
+					ev["arg"] = toS(t + "}")
+				case "ptr":
+					t := "&"
+					if in[0].IsNil() {
+						t = "&<nil>"
+					} else {
+						t += atomText(in[0].Elem())
+						for _, p := range seenPtr {
+							if p == in[0].Pointer() {
+								t += "!reused"
+							}
+						}
+						seenPtr = append(seenPtr, in[0].Pointer())
+					}
+					ev["arg"] = toS(t)
+				default:
+					ev["arg"] = toS(atomText(in[0]))
+				}
 			}
 			b.log.add(ev)
 			if failOn != nil {
 				if len(in) == 0 {
 					fail = *failOn == ""
-				} else {
+				} else if param == "" {
 					fail = atomText(in[0]) == *failOn
 				}
 			}
